@@ -357,6 +357,30 @@ static void clsweep_case(void) {
     free(noise); free(c);
 }
 
+/* sfar <n> <off> <len>: a valid raw Snappy block built here: preamble(n+len), one literal of n noise bytes (4-byte
+ * length form), one copy-4 (offset off, length len <= 64); decompressed into exactly n+len bytes by carquet and by
+ * libsnappy and compared with the denoted bytes.  For back-references of 16 MiB and more (no hex on the line).
+ * -> "OK rt=<0|1> lib=<0|1> status=<carquet status>" */
+static void sfar_case(void) {
+    size_t n = (size_t)strtoull(h_tok[1], NULL, 10), off = (size_t)strtoull(h_tok[2], NULL, 10), len = (size_t)strtoull(h_tok[3], NULL, 10);
+    if (n < 1 || off < 1 || off > n || len < 1 || len > 64 || n + len >= ((size_t)1 << 32)) { puts("ERR bad-sfar"); return; }
+    size_t total = n + len; size_t sl = 5 + 5 + n + 5; void* sb; uint8_t* st = exact(sl, &sb); size_t k = 0;
+    size_t v = total; while (v >= 0x80) { st[k++] = (uint8_t)(v | 0x80); v >>= 7; } st[k++] = (uint8_t)v;
+    st[k++] = 0xFC; st[k++] = (uint8_t)(n - 1); st[k++] = (uint8_t)((n - 1) >> 8); st[k++] = (uint8_t)((n - 1) >> 16); st[k++] = (uint8_t)((n - 1) >> 24);
+    uint8_t* want = xalloc(total); uint64_t r = 0xA0761D6478BD642Full ^ (uint64_t)n;
+    for (size_t i = 0; i < n; i++) { r ^= r << 13; r ^= r >> 7; r ^= r << 17; want[i] = (uint8_t)(r >> 24); }
+    memcpy(st + k, want, n); k += n;
+    st[k++] = (uint8_t)(((len - 1) << 2) | 3); st[k++] = (uint8_t)off; st[k++] = (uint8_t)(off >> 8); st[k++] = (uint8_t)(off >> 16); st[k++] = (uint8_t)(off >> 24);
+    for (size_t i = 0; i < len; i++) want[n + i] = want[n + i - off];
+    void* xb; uint8_t* s2 = exact(k, &xb); memcpy(s2, st, k); free(sb);
+    void* db; uint8_t* d = exact(total, &db); size_t out = (size_t)-1;
+    int rc = carquet_snappy_decompress(s2, k, d, total, &out);
+    int rt = (rc == 0 && out == total && memcmp(d, want, total) == 0);
+    int lib = lib_decodes(0, s2, k, want, total);
+    printf("OK rt=%d lib=%d status=%d\n", rt, lib, rc);
+    free(xb); free(db); free(want);
+}
+
 extern void carquet_gzip_init_tables(void);
 extern void carquet_zstd_init_tables(void);
 
@@ -374,6 +398,7 @@ int main(void) {
         else if (!strcmp(h_tok[0], "zs") && h_ntok == 4) comp_case(3, atoi(h_tok[1]), atol(h_tok[2]), h_tok[3]);
         else if (!strcmp(h_tok[0], "big") && h_ntok == 5) big_case();
         else if (!strcmp(h_tok[0], "clsweep") && h_ntok == 5) clsweep_case();
+        else if (!strcmp(h_tok[0], "sfar") && h_ntok == 4) sfar_case();
         else if (!strcmp(h_tok[0], "hist") && h_ntok >= 5) hist_case();
         else if (!strcmp(h_tok[0], "pages") && h_ntok == 5) pages_case();
         else if (!strcmp(h_tok[0], "slen") && h_ntok == 2) {
